@@ -160,6 +160,20 @@ func Enumerate(thorough bool, yield func(idx int, c Case)) int {
 			rec(0)
 		}
 	}
+	// bulk table: statements touching exactly / just under / just over the undo executors' IN-list batch size (sixth-round seed)
+	sizes := []int{1000, 999, 1001}
+	if thorough {
+		sizes = append(sizes, 2000, 2001)
+	}
+	for _, n := range sizes {
+		in := make([]int, n)
+		for i := range in {
+			in[i] = i
+		}
+		for _, stmt := range gen.S9.Stmts {
+			emit(Case{gen.Program{Schema: "s9", Steps: []gen.Step{{Stmt: stmt, Group: 0}}, Init: in}, DefaultConfig, "immediate"})
+		}
+	}
 	return idx
 }
 
